@@ -193,7 +193,12 @@ func runC09(c *Ctx) {
 	r.Rule("R09-negate", "Negate maps Lost<->Won, Heur(p)->Heur(-p), Mate(k)->Mate(-k), is an involution, and Less(a,b) == Less(Negate b, Negate a) in every region", 5+5+31)
 	r.Rule("R09-incr", "IncrementMateDistance maps Won->Mate(+1), Lost->Mate(-1), Mate(k)->Mate(k away from 0 by 1), Heur unchanged; Less(Inc a, Inc b) == Less(a,b) in every region; MateDistance = |k| / 0 / none", 5+31+5)
 	r.Rule("R09-maxmin", "Max/Min return the argument selected by the spec order in every region", 62)
+	c09Run(c)
+}
 
+// c09Run decides the score algebra (also re-decided by C03, whose equality with minimax rests on it).
+func c09Run(c *Ctx) {
+	r := c.R
 	less := c.fn("R09-order", "pkg/eval", "Score", "Less")
 	neg := c.fn("R09-negate", "pkg/eval", "Score", "Negate")
 	inc := c.fn("R09-incr", "pkg/eval", "", "IncrementMateDistance")
